@@ -1,5 +1,133 @@
 package main
 
+import (
+	"encoding/json"
+	"strconv"
+	"strings"
+
+	"github.com/runreveal/pql/parser"
+)
+
+// replayOther re-executes a stored observation of the program-level
+// properties against the code the harness was built with.
 func replayOther(res *Result, rf replayFile, text string) {
-	fatal("no replay procedure for property", rf.Property)
+	v := rf.Violation
+	wdReplay = true
+	startWatchdog(res, "")
+	pc := &progChecker{res: res, layouts: 1, seen: map[string]bool{}, traceSeen: map[string]bool{}}
+	extra, _ := v.Extra.(map[string]any)
+	reenc := func(x any, into any) {
+		b, _ := json.Marshal(x)
+		json.Unmarshal(b, into)
+	}
+	switch v.Kind {
+	case "panic", "hang", "sql_xor_error", "compiled_unparsable":
+		pc.totalityChecks(text)
+		keep := res.Violations[:0]
+		for _, w := range res.Violations {
+			if w.Property == rf.Property {
+				keep = append(keep, w)
+			}
+		}
+		res.Violations = keep
+		res.NViolations = len(keep)
+	case "valid_program_rejected", "tree_differs":
+		stmts, err := parser.Parse(text)
+		if err != nil {
+			res.violate(Violation{Property: "C07", Kind: v.Kind, Reason: "rejected: " + firstLine(err.Error())})
+			return
+		}
+		if d := firstDiff("", v.Expected, roundTrip(projStmts(stmts))); d != "" {
+			res.violate(Violation{Property: "C07", Kind: v.Kind, Reason: "tree differs at " + d})
+		}
+	case "accepted_tree_malformed":
+		// decided by TLC (StmtOK); reproduced when Parse still accepts the source
+		// with the same tree
+		stmts, err := parser.Parse(text)
+		if err == nil && (v.Observed == nil || firstDiff("", v.Observed, roundTrip(projStmts(stmts))) == "") {
+			res.violate(Violation{Property: "C07", Kind: v.Kind, Reason: "still accepted with the same tree"})
+		}
+	case "tokens_not_accounted":
+		stmts, err := parser.Parse(text)
+		if err != nil {
+			return
+		}
+		var real []gTok
+		for _, t := range parser.Scan(text) {
+			real = append(real, gTok{K: kindName(t.Kind), V: t.Value})
+		}
+		if !accounts(real, projStmts(stmts)) {
+			res.violate(Violation{Property: "C08", Kind: v.Kind, Reason: "Parse succeeds and the tree does not account for all tokens"})
+		}
+	case "span":
+		var c progCase
+		var ext [][2]int
+		reenc(extra["toks"], &c.Toks)
+		reenc(extra["ext"], &ext)
+		stmts, err := parser.Parse(text)
+		if err != nil {
+			return
+		}
+		if msg := pc.spanChecks(text, &c, ext, listNodes(stmts)); msg != "" {
+			res.violate(Violation{Property: "C10", Kind: v.Kind, Reason: msg})
+		}
+	case "implicit_column_name":
+		_, _, sql, cerr := pc.totalityChecks(text)
+		alias, _ := extra["alias"].(string)
+		if cerr == nil && !strings.Contains(sql, alias) {
+			res.violate(Violation{Property: "C10", Kind: v.Kind, Reason: "alias " + alias + " not in the output"})
+		}
+	case "error_position":
+		if msg := errorPositionChecks(text); msg != "" {
+			res.violate(Violation{Property: "C10", Kind: v.Kind, Reason: msg})
+		}
+	case "walk":
+		stmts, err := parser.Parse(text)
+		if err != nil {
+			return
+		}
+		nodes := listNodes(stmts)
+		for i, s := range stmts {
+			sub := subNodes(nodes, strconv.Itoa(i))
+			if msg := pc.walkChecks(text, s, sub, 1000); msg != "" {
+				res.violate(Violation{Property: "C11", Kind: v.Kind, Reason: msg})
+				return
+			}
+		}
+	case "valid_program_not_compiled":
+		if _, _, _, cerr := pc.totalityChecks(text); cerr != nil {
+			res.violate(Violation{Property: "C13", Kind: v.Kind, Reason: firstLine(cerr.Error())})
+		}
+	case "planted_violation_compiled":
+		if _, _, _, cerr := pc.totalityChecks(text); cerr == nil {
+			res.violate(Violation{Property: "C13", Kind: v.Kind, Reason: "still compiles"})
+		}
+	default:
+		fatal("no replay procedure for", rf.Property, v.Kind)
+	}
+}
+
+func roundTrip(x any) any {
+	b, _ := json.Marshal(x)
+	var out any
+	json.Unmarshal(b, &out)
+	return out
+}
+
+func subNodes(nodes []nodeInfo, prefix string) []nodeInfo {
+	var sub []nodeInfo
+	base := -1
+	for j, n := range nodes {
+		if n.Path == prefix || strings.HasPrefix(n.Path, prefix+"/") {
+			if base < 0 {
+				base = j
+			}
+			m := n
+			if m.Parent >= 0 {
+				m.Parent -= base
+			}
+			sub = append(sub, m)
+		}
+	}
+	return sub
 }
